@@ -34,8 +34,19 @@ def gen(ctx):
     for i in range(n):
         cfg = updenc.gen_cfg(rng)
         content, exp = updenc.gen_content(rng, cfg, size=rng.choice(['small', 'normal', 'normal']))
-        kind = rng.choice(['valid', 'valid', 'unknown', 'unknown', 'malformed', 'malformed', 'dup', 'badnlri', 'boundary', 'emptyreach'])
+        kind = rng.choice(['valid', 'valid', 'unknown', 'unknown', 'malformed', 'malformed', 'dup', 'badnlri', 'boundary', 'emptyreach', 'longpath'])
         attrs = list(content['attrs'])
+        if kind == 'longpath':
+            # an AS_PATH of more than 255 distinct ASNs in consecutive AS_SEQUENCE segments (in whatever segmentation the sender chose)
+            sz = 4 if cfg['four'] else 2
+            lens = rng.choice([[200, 100], [255, 255, 90], [45, 255], [255, 1], [128, 128], [255, 255]])
+            k0 = 0
+            v = b''
+            for n in lens:
+                v += bytes([2, n]) + b''.join((1000 + k0 + i).to_bytes(sz, 'big') for i in range(n))
+                k0 += n
+            attrs = [x for x in attrs if x[1] != 2]
+            attrs.insert(rng.below(len(attrs) + 1), (updenc.CANON[2], 2, v, True))
         if kind == 'boundary':
             # a recognised attribute whose value is 252..260 octets long: the one-octet / two-octet length form changes at 255|256
             code = rng.choice([8, 8, 16, 10, 2, 32])
